@@ -2,14 +2,11 @@
 #![cfg(cstree_verif)]
 #![allow(missing_docs)]
 
-use std::sync::{
-    atomic::{AtomicU32, Ordering},
-    RwLock,
-};
+use std::sync::atomic::Ordering;
 
 /// Mask applied to every 32-bit child hash of a green node (default: all bits, i.e. no change).
 /// Lowering it forces hash collisions between different nodes.
-static HASH_MASK: AtomicU32 = AtomicU32::new(u32::MAX);
+static HASH_MASK: std::sync::atomic::AtomicU32 = std::sync::atomic::AtomicU32::new(u32::MAX);
 
 pub fn set_hash_mask(mask: u32) {
     HASH_MASK.store(mask, Ordering::SeqCst);
@@ -19,24 +16,21 @@ pub fn hash_mask() -> u32 {
     HASH_MASK.load(Ordering::SeqCst)
 }
 
-/// Synchronisation-relevant steps of the red tree, reported to an installed observer.
-/// `*Lock` events are reported BEFORE the lock is requested, `*Unlock` events AFTER it was released;
-/// `Rmw` BEFORE the read-modify-write on the tree's reference count; `Alloc` after a `NodeData` block
-/// was allocated, `Free` before it is freed.
+/// Synchronisation-relevant steps of the red tree, reported to an installed observer by the primitives
+/// themselves (the instrumented [`RwLock`] and [`AtomicU32`] below replace the real ones in this configuration).
+/// `Lock` is reported BEFORE the lock is requested, `Unlock` AFTER it was released; `Rmw` BEFORE the
+/// read-modify-write on the tree's reference count; `Alloc` after a `NodeData` block was allocated (with the
+/// addresses of the locks it contains), `Free` before it is freed.
 #[derive(Debug, Clone, Copy, PartialEq, Eq)]
 pub enum Event {
-    ReadLock { node: usize, slot: usize },
-    ReadUnlock { node: usize, slot: usize },
-    WriteLock { node: usize, slot: usize },
-    WriteUnlock { node: usize, slot: usize },
-    DataLock { node: usize, write: bool },
-    DataUnlock { node: usize, write: bool },
-    Rmw { delta: i32 },
-    Alloc { ptr: usize },
+    Lock { addr: usize, write: bool },
+    Unlock { addr: usize, write: bool },
+    Rmw { delta: i32, order: Ordering },
+    Alloc { ptr: usize, data_lock: usize, slot_locks: usize, n_slots: usize },
     Free { ptr: usize },
 }
 
-static OBSERVER: RwLock<Option<fn(Event)>> = RwLock::new(None);
+static OBSERVER: std::sync::RwLock<Option<fn(Event)>> = std::sync::RwLock::new(None);
 
 /// Installs (or removes) the observer. It is called on the thread that performs the step.
 pub fn set_observer(f: Option<fn(Event)>) {
@@ -51,18 +45,128 @@ pub fn point(event: Event) {
     }
 }
 
-/// Reports `enter` now and `exit` when dropped. Declare it BEFORE the lock guard it describes, so that it is
-/// dropped after the guard.
-#[derive(Debug)]
-pub struct Scope(Event);
+/// `parking_lot::RwLock` that reports its lock and unlock steps.
+#[derive(Debug, Default)]
+pub struct RwLock<T>(parking_lot::RwLock<T>);
 
-pub fn scope(enter: Event, exit: Event) -> Scope {
-    point(enter);
-    Scope(exit)
+impl<T> RwLock<T> {
+    pub fn new(value: T) -> Self {
+        Self(parking_lot::RwLock::new(value))
+    }
+
+    fn addr(&self) -> usize {
+        self as *const Self as usize
+    }
+
+    pub fn read(&self) -> RwLockReadGuard<'_, T> {
+        let addr = self.addr();
+        point(Event::Lock { addr, write: false });
+        RwLockReadGuard {
+            guard: Some(self.0.read()),
+            addr,
+        }
+    }
+
+    pub fn write(&self) -> RwLockWriteGuard<'_, T> {
+        let addr = self.addr();
+        point(Event::Lock { addr, write: true });
+        RwLockWriteGuard {
+            guard: Some(self.0.write()),
+            addr,
+        }
+    }
 }
 
-impl Drop for Scope {
+pub struct RwLockReadGuard<'a, T> {
+    guard: Option<parking_lot::RwLockReadGuard<'a, T>>,
+    addr:  usize,
+}
+
+impl<T> std::ops::Deref for RwLockReadGuard<'_, T> {
+    type Target = T;
+
+    fn deref(&self) -> &T {
+        self.guard.as_ref().unwrap()
+    }
+}
+
+impl<T> Drop for RwLockReadGuard<'_, T> {
     fn drop(&mut self) {
-        point(self.0);
+        self.guard = None;
+        point(Event::Unlock {
+            addr:  self.addr,
+            write: false,
+        });
+    }
+}
+
+pub struct RwLockWriteGuard<'a, T> {
+    guard: Option<parking_lot::RwLockWriteGuard<'a, T>>,
+    addr:  usize,
+}
+
+impl<T> std::ops::Deref for RwLockWriteGuard<'_, T> {
+    type Target = T;
+
+    fn deref(&self) -> &T {
+        self.guard.as_ref().unwrap()
+    }
+}
+
+impl<T> std::ops::DerefMut for RwLockWriteGuard<'_, T> {
+    fn deref_mut(&mut self) -> &mut T {
+        self.guard.as_mut().unwrap()
+    }
+}
+
+impl<T> Drop for RwLockWriteGuard<'_, T> {
+    fn drop(&mut self) {
+        self.guard = None;
+        point(Event::Unlock {
+            addr:  self.addr,
+            write: true,
+        });
+    }
+}
+
+/// `AtomicU32` that reports its read-modify-write steps (with the requested memory ordering).
+#[derive(Debug)]
+pub struct AtomicU32(std::sync::atomic::AtomicU32);
+
+impl AtomicU32 {
+    pub fn new(value: u32) -> Self {
+        Self(std::sync::atomic::AtomicU32::new(value))
+    }
+
+    pub fn fetch_add(&self, value: u32, order: Ordering) -> u32 {
+        point(Event::Rmw {
+            delta: value as i32,
+            order,
+        });
+        self.0.fetch_add(value, order)
+    }
+
+    pub fn fetch_sub(&self, value: u32, order: Ordering) -> u32 {
+        point(Event::Rmw {
+            delta: -(value as i32),
+            order,
+        });
+        self.0.fetch_sub(value, order)
+    }
+
+    pub fn load(&self, order: Ordering) -> u32 {
+        self.0.load(order)
+    }
+}
+
+impl<T> std::fmt::Debug for RwLockReadGuard<'_, T> {
+    fn fmt(&self, f: &mut std::fmt::Formatter<'_>) -> std::fmt::Result {
+        f.debug_struct("RwLockReadGuard").field("addr", &self.addr).finish()
+    }
+}
+
+impl<T> std::fmt::Debug for RwLockWriteGuard<'_, T> {
+    fn fmt(&self, f: &mut std::fmt::Formatter<'_>) -> std::fmt::Result {
+        f.debug_struct("RwLockWriteGuard").field("addr", &self.addr).finish()
     }
 }
